@@ -55,14 +55,34 @@ def run(ctx):
     for s in scs:
         p = s["scn"]["prior"]
         k = (("empty" if p["px"] == 0 else "shallow1x2" if p.get("pb") else "shallow%d" % p["d1"] if p["d1"] else "diverged" if p["local"] else "partial"),
-             s["scn"]["depth"], s["scn"]["tags"] if not p.get("pb") else s["scn"]["refspec"])
+             s["scn"]["depth"], s["scn"]["tags"] if not p.get("pb") else s["scn"]["refspec"] + ("/same-tip" if p["px"] == len(s["scn"]["dag"]) else ""))
         strata.setdefault(k, []).append(s)
-    want = 2100 if ctx.thorough else 100
+    want = 2000 if ctx.thorough else 70
     picked = []
     while len(picked) < want and any(strata.values()):
         for k in sorted(strata):
             if strata[k]:
                 picked.append(strata[k].pop())
+    # single-branch deepening of a client with two boundaries where the fetched head did not move is the class in
+    # which an unshallow line and an untouched boundary of the other branch meet: sample it more densely (in-process legs)
+    for k in sorted(strata):
+        if k[0] == "shallow1x2" and k[1] > 0 and k[2] == "one/same-tip":
+            for _ in range(40 if ctx.thorough else 10):
+                if strata[k]:
+                    picked.append(strata[k].pop())
+        if k[0] == "shallow2" and k[1] > 0:   # deepening a depth-2 client (old boundary retired, pack must cover the gap)
+            for _ in range(10 if ctx.thorough else 2):
+                if strata[k]:
+                    picked.append(strata[k].pop())
+    # the first scenarios go through every pairing, the git->git witness first: make sure the deepening classes
+    # (two boundaries + single-branch refspec; depth-2 client) are among them
+    def promote(pred):
+        for i, x in enumerate(picked):
+            if pred(x):
+                picked.insert(0, picked.pop(i))
+                return
+    promote(lambda x: x["scn"]["prior"]["d1"] == 2 and x["scn"]["depth"] > 0)
+    promote(lambda x: x["scn"]["prior"].get("pb") and x["scn"]["depth"] > 0 and x["scn"]["refspec"] == "one")
     sp = ctx.path("fetch_scn.ndjson")
     with open(sp, "w") as f:
         for s in picked:
@@ -82,7 +102,7 @@ def run(ctx):
     ctx.cov["rule"] = ("TLC enumerates every scenario of the bounded domain (one state each) and checks the specification theorems on all of them; "
                        "the replay takes a seeded sample stratified by (prior state, depth, tag mode); distinct = distinct (scenario, pairing); "
                        "non-trivial = a real fetch transferring at least one commit, verified by refs + shallow + connectivity")
-    ctx.vh("c36", [sp, vsrv] + ([2000, 60] if ctx.thorough else [70, 2]), pkg="vhnet", timeout=3400)
+    ctx.vh("c36", [sp, vsrv] + ([len(picked), 60] if ctx.thorough else [len(picked), 2]), pkg="vhnet", timeout=3400)
     ctx.assumptions += [
         "git 2.39.5 -> git 2.39.5 on the same scenario is the witness for the specification (spec error if it disagrees)",
         "commit symbols are real commits built by git fast-import; an annotated tag is a real tag object",
